@@ -214,7 +214,7 @@ module Reference : INST with type se = coq_N StoreSpec.astore = struct
   let is_empty a = a.StoreSpec.pend = []
   let live a = StoreSpec.alive a
   let run = McInst.r_run
-  let run_from_states = None
+  let run_from_states = Some (fun tab progs -> McInst.r_run_from_states tab progs (fun l -> l))
   let get_state = McInst.r_get_state
   let battery = None
 end
